@@ -121,7 +121,7 @@ def observe_write(P, case, d):
             out["idx"] = base + ".idx"
         elif api == 3:
             count, recs = P.pack_objects_to_data(sha_objs, deltify=bool(deltify), delta_window_size=win,
-                                                 ofs_delta=bool(ofs))
+                                                 ofs_delta=bool(ofs), object_format=fmt)
             with open(base + ".pack", "wb") as f:
                 entries, data_sum = P.write_pack_data(f.write, recs, fmt, num_records=count, compression_level=level)
             out["pack"] = base + ".pack"
@@ -154,7 +154,7 @@ def observe_write(P, case, d):
                     out["nopack"] = True
             finally:
                 store.close()
-        elif api == 6:
+        elif api in (6, 8, 9):
             sd = os.path.join(d, "src")
             os.makedirs(os.path.join(sd, "pack"))
             src_objs = sha_objs + [mk(t, data, fmt) for (_i, t, data) in have]
@@ -172,13 +172,66 @@ def observe_write(P, case, d):
             try:
                 ids = [(hexid(o, fmt), (o.type_num, None)) for o in sha_objs]
                 hv = {hexid(mk(t, data, fmt), fmt) for (_i, t, data) in have}
-                with open(base + ".pack", "wb") as f:
+                target = base + ".pack" if api == 6 else os.path.join(d, "stream.pack")
+                with open(target, "wb") as f:
                     entries, data_sum = P.write_pack_from_container(
                         f.write, store, ids, fmt, delta_window_size=win, deltify=bool(deltify),
                         reuse_deltas=bool(reuse), compression_level=level, other_haves=hv)
-                out["pack"] = base + ".pack"
-                write_idx(P, base + ".idx", entries, data_sum, idxv)
-                out["idx"] = base + ".idx"
+                if api == 6:
+                    out["pack"] = base + ".pack"
+                    write_idx(P, base + ".idx", entries, data_sum, idxv)
+                    out["idx"] = base + ".idx"
+            finally:
+                store.close()
+            if api in (8, 9):
+                # the stream is handed to a receiving store that holds the receiver's objects; the pack and the index
+                # judged are the ones the store installs
+                with open(target, "rb") as f:
+                    sdata = f.read()
+                if not ofs:
+                    # a peer without ofs-delta: REF_DELTA also after the base
+                    sdata = L.ofs_to_ref(sdata, oid, {L.obj_name(oid, t, data): (t, data) for (_i, t, data) in have})
+                rd = os.path.join(d, "recv")
+                os.makedirs(os.path.join(rd, "pack"))
+                rs = DiskObjectStore(rd, pack_compression_level=level, pack_index_version=idxv, object_format=fmt)
+                try:
+                    for (_i, t, data) in have:
+                        rs.add_object(mk(t, data, fmt))
+                    if api == 8:
+                        bio = io.BytesIO(sdata)
+                        pk = rs.add_thin_pack(bio.read, None)
+                    else:
+                        f, commit, abort = rs.add_pack()
+                        try:
+                            f.write(sdata)
+                        except BaseException:
+                            abort()
+                            raise
+                        pk = commit()
+                    if pk is not None:
+                        shutil.copy(pk._data_path, base + ".pack")
+                        shutil.copy(pk._idx_path, base + ".idx")
+                        out["pack"], out["idx"] = base + ".pack", base + ".idx"
+                    else:
+                        out["nopack"] = True
+                finally:
+                    rs.close()
+                out["thin"] = False          # completed by the store
+                out["ingested"] = True
+        elif api == 10:
+            sd = os.path.join(d, "store")
+            os.makedirs(os.path.join(sd, "pack"))
+            store = DiskObjectStore(sd, pack_compression_level=level, pack_index_version=idxv, object_format=fmt)
+            try:
+                count, recs = P.pack_objects_to_data(sha_objs, deltify=bool(deltify), delta_window_size=win,
+                                                     object_format=fmt)
+                pk = store.add_pack_data(count, recs)
+                if pk is not None:
+                    shutil.copy(pk._data_path, base + ".pack")
+                    shutil.copy(pk._idx_path, base + ".idx")
+                    out["pack"], out["idx"] = base + ".pack", base + ".idx"
+                else:
+                    out["nopack"] = True
             finally:
                 store.close()
         elif api == 7:
@@ -220,6 +273,13 @@ def observe_read(P, case, w, d, rng):
             names.append(n)
     reads, listings = [], []
     base = w["pack"][:-5]
+    if w.get("ingested"):
+        # the outside bases the store appended belong to the pack now
+        with P.Pack(base, object_format=fmt) as p0:
+            for (_i, t, data) in have:
+                n = L.obj_name(oid, t, data).hex().encode()
+                if n in p0 and n not in names:
+                    names.append(n)
     ext = None
     ext_store = None
     if w.get("thin") and w.get("src_dir"):
@@ -345,6 +405,7 @@ class GitBox:
 def git_opinion(box, case, w, pk_names, written_by_name, d, do_cat):
     """C git on a pack dulwich wrote.  -> {clause: message} for the clauses that fail, plus facts."""
     api, deltify, window, reuse, thin, ofs, level, idxv, oid = case["row"]
+    thin = bool(w.get("thin"))
     fails, facts = {}, {}
     amb = box.ambient(oid)
     gidx = os.path.join(d, "git.idx")
@@ -459,7 +520,18 @@ def analyse_writer(box, case, w, reads, listings, chk, d, do_cat):
             ix = L.parse_idx(idata, oid)
         except L.ParseError as e:
             res["py"]["Unparseable"] = f"idx: {e}"
-    pk, ixr = L.project(pp, ix, ids, oid, ext_ids=[i for (i, _t, _d) in have], pack_trailer=pp["trailer"])
+    ingested = bool(w.get("ingested"))
+    if ingested:
+        present = {e["name"] for e in pp["entries"] if e["name"] is not None}
+        for (i, t, data) in have:
+            n = L.obj_name(oid, t, data)
+            if n in present:
+                row = [i, t, cid_of(chash(data))]
+                if row not in written:
+                    written.append(row)
+                written_by_name[n.hex()] = (t, len(data), chash(data))
+    pk, ixr = L.project(pp, ix, ids, oid, ext_ids=[] if ingested else [i for (i, _t, _d) in have],
+                        pack_trailer=pp["trailer"])
     if pp["parsed_to"] != pp["dlen"]:
         res["py"]["Unparseable"] = "entries do not fill the pack up to the trailer"
     name_to_id = {n.hex(): i for n, i in ids.items()}
@@ -477,7 +549,7 @@ def analyse_writer(box, case, w, reads, listings, chk, d, do_cat):
         return out
     res["trace"] = {
         "tid": case["cid"], "kind": "dw", "pk": pk, "hasix": ixr is not None, "ix": ixr if ixr is not None else {},
-        "written": written, "depthcap": -1,
+        "written": written, "depthcap": -1, "wr": not ingested,
         "reads": [{"name": r["name"], "ok": r["ok"], "items": conv_items(r["items"])} for r in reads],
         "entries": [{"name": r["name"], "ok": r["ok"], "full": r["name"] != "index.object_offset",
                      "items": conv_list(r["items"])} for r in listings],
@@ -892,7 +964,7 @@ def git_scenario(P, sc, d, rng):
                 rs.close()
         attempt("add_thin_pack+getitem", completed, reads)
     res["trace"] = {"tid": sc["cid"], "kind": "git", "pk": pk, "hasix": ixr is not None, "ix": ixr if ixr is not None else {},
-                    "written": written, "depthcap": sc["depth"], "reads": [{"name": x["name"], "ok": x["ok"], "items": x["items"]} for x in reads],
+                    "written": written, "depthcap": sc["depth"], "wr": False, "reads": [{"name": x["name"], "ok": x["ok"], "items": x["items"]} for x in reads],
                     "entries": [{"name": x["name"], "ok": x["ok"], "full": True, "items": x["items"]} for x in listings]}
     res["excs"] = {x["name"]: x["exc"] for x in reads + listings if not x["ok"]}
     res["facts"] = {"entries": len(pk["es"]), "kinds": sorted({e["kind"] for e in pk["es"]}), "thin": bool(thin_base),
